@@ -171,6 +171,22 @@ def unit_steps(a):
                 yield {"sub": "step", "dialect": d, "kw": kw, "bullet": "", "spaces": 0, "indent": 2}
     sweep(stats, gen(), check_step)
     sweep(stats, [{"sub": "table-intact"}], check_table_intact)
+
+    def cross():
+        for i, d in enumerate(sorted(DIALECTS)):
+            if i % a["nshards"] != a["shard"]:
+                continue
+            D = DIALECTS[d]
+            for cat in TITLE_CATS:
+                for kw in D[cat][:2]:
+                    for bullet in ("- ", "* ", "+  ", "  - "):
+                        yield {"sub": "cross", "dialect": d, "line": bullet + kw + ": x"}
+            for kw, _ in step_keywords(d)[:6]:
+                if kw[:1] in "*+-":
+                    continue
+                for hdr in ("# ", "## ", " ###### "):
+                    yield {"sub": "cross", "dialect": d, "line": hdr + kw + "x"}
+    sweep(stats, cross(), check_cross)
     return stats
 
 
@@ -235,6 +251,19 @@ def unit_tags(a):
     return stats
 
 
+def check_cross(case, stats):
+    """a list item followed by a TITLE keyword, a header followed by a STEP keyword: neither is a keyword line of any kind -
+    also when ONE token is offered to the matchers in turn, as the parser does"""
+    d, line = case["dialect"], case["line"]
+    stats.case((d, line), True, sample=case)
+    for order in (ROLES + ["StepLine"], ["StepLine"] + ROLES, ROLES[::-1] + ["StepLine"]):
+        shared = tok(line + "\n")
+        m = MD(d)
+        for r2 in order:
+            if getattr(m, "match_" + r2)(shared):
+                raise Violation(case, "line %r in %s: match_%s recognised it (matchers asked in the order %s on one token)" % (line, d, r2, " ".join(order)))
+
+
 def check_table_intact(case, stats):
     """using the Markdown matcher must not modify the shared language table"""
     for d in ("en", "fr", "ht"):
@@ -255,6 +284,8 @@ def check_table_intact(case, stats):
 def replay(case, stats):
     if case["sub"] == "table-intact":
         return check_table_intact(case, stats)
+    if case["sub"] == "cross":
+        return check_cross(case, stats)
     return {"title": check_title, "step": check_step, "table": check_table, "tags": check_tags}[case["sub"]](case, stats)
 
 
